@@ -446,7 +446,8 @@ def corpus_general(tier, seed, rnd, n=None):
                  split=rnd.choice([1, 1, 2, 3]), recipe=rnd.choice([False, False, True]),
                  bad_frac=rnd.choice([0.0, 0.0, 0.3, 0.9]),
                  dtype=rnd.choice([None, None, "float64", "float32"]),
-                 mcmc_steps=rnd.choice([1, 2, 3]))
+                 mcmc_steps=rnd.choice([1, 2, 3]),
+                 cut=rnd.choice([None, None, 0.2, 0.9]))      # likelihood exactly zero on part of the prior support
         if smp == "minipcn_smc":
             c["min_step"] = rnd.choice([None, None, 0.1])
             c["max_n_steps"] = rnd.choice([None, None, 3])
